@@ -24,7 +24,7 @@ git apply "$PATCH" || { echo "patch does not apply"; cd /; git -C /repo worktree
 go build ./... || echo "DOES NOT BUILD"
 echo "repo tests with change (failures listed):"; go test -count=1 $(go list ./... | grep -v sgip/sgip12) 2>&1 | grep -v "^ok\|no test files" | head -10
 rundemo with
-cd /verif
+cd ${VERIF_HOME:-/verif}
 for p in "$@"; do
   VERIF_REPO=$W bin/check $p --tier ${TIER:-quick} 2>&1 | egrep "^OK|^VIOLATION|INFRA|tag=" | cut -c1-200
 done
